@@ -57,16 +57,9 @@ func init() {
 		},`, New: `		func(l, r int) any {
 			return l >> r
 		},`, ExpectKey: "shift"})
-	AddControl(Control{ID: "c13-repeat-negative", Prop: "C13", Rule: "C13.pre", File: "format/toml/toml.go",
-		Old: `strings.Repeat(" ", max(0, opts.Indent))`, New: `strings.Repeat(" ", opts.Indent)`, ExpectKey: "Repeat"})
-	AddControl(Control{ID: "c13-unit-zero", Prop: "C13", Rule: "C13.pre", File: "pkg/interp/binary.go",
+		AddControl(Control{ID: "c13-unit-zero", Prop: "C13", Rule: "C13.pre", File: "pkg/interp/binary.go",
 		Old: `	if opts.Unit <= 0 || opts.PadToUnits < 0 {`, New: `	if opts.Unit < 0 || opts.PadToUnits < 0 {`, ExpectKey: "div"})
-	AddControl(Control{ID: "c13-make-negative", Prop: "C13", Rule: "C13.pre", File: "pkg/interp/interp.go",
-		Old: `	if l < 0 {
-		return gojq.NewIter(fmt.Errorf("negative read length %d", l))
-	}
-`, New: ``, ExpectKey: "make"})
-	AddControl(Control{ID: "c13-clamp-swapped", Prop: "C13", Rule: "C13.inv", File: "pkg/interp/interp.go",
+		AddControl(Control{ID: "c13-clamp-swapped", Prop: "C13", Rule: "C13.inv", File: "pkg/interp/interp.go",
 		Old: `	opts.Addrbase = mathx.Clamp(2, 36, opts.Addrbase)`, New: `	opts.Addrbase = mathx.Clamp(opts.Addrbase, 2, 36)`, ExpectKey: "Addrbase"})
 	AddControl(Control{ID: "c13-linebytes-zero", Prop: "C13", Rule: "C13.inv", File: "pkg/interp/interp.go",
 		Old: `	opts.LineBytes = max(1, opts.LineBytes)`, New: `	opts.LineBytes = max(0, opts.LineBytes)`, ExpectKey: "LineBytes"})
